@@ -618,9 +618,18 @@ func (b *BaseStore) Sync(ctx context.Context, heads []ipfslog.Entry) error {
 		return nil
 	}
 
+	verified := make([]ipfslog.Entry, 0, len(heads))
 	for _, h := range heads {
-		if h == nil {
+		// a JSON 'null' head decodes to a typed nil pointer, which is not == nil
+		if h == nil || !h.Defined() {
 			b.Logger().Debug("warning: Given input entry was 'null'.")
+			continue
+		}
+
+		// heads come from the network: an entry lacking identity, identity
+		// signatures or clock cannot be verified nor written, discard it
+		if identity := h.GetIdentity(); identity == nil || identity.Signatures == nil || h.GetClock() == nil || !h.GetClock().Defined() {
+			b.Logger().Debug("warning: Given input entry is incomplete and was discarded.")
 			continue
 		}
 
@@ -656,9 +665,14 @@ func (b *BaseStore) Sync(ctx context.Context, heads []ipfslog.Entry) error {
 		}
 
 		span.AddEvent("store-sync-head-verified")
+		verified = append(verified, h)
 	}
 
-	go b.Replicator().Load(ctx, heads)
+	if len(verified) == 0 {
+		return nil
+	}
+
+	go b.Replicator().Load(ctx, verified)
 
 	return nil
 }
